@@ -244,7 +244,7 @@ Print Assumptions C12_source_tm_destroy.
 From Sbdf Require Import ImpFactsDestroyPartial.
 Theorem C12_source_obj_destroy_half_filled : forall k sx m h ob db ty filled nulls data,
   obj_block h ob ty (Base.zlen (filled ++ nulls)) data -> as_ptr data = VCell db 0 -> ob <> db ->
-  Leaf.gen_sbdf_ti_is_arr ty <> 0%Z -> nth_error h db = Some (Some (filled ++ nulls)) -> elem_ptrs m filled -> Forall (fun c => c = VInt 0 \/ c = VNull) nulls ->
+  Leaf.gen_sbdf_ti_is_arr ty <> 0%Z -> nth_error h db = Some (Some (filled ++ nulls)) -> ImpFactsDestroy.elem_ptrs m filled -> Forall (fun c => c = VInt 0 \/ c = VNull) nulls ->
   (Base.zlen (filled ++ nulls) <= int_max)%Z ->
   exists f0, forall f, (f0 <= f)%nat -> exists fin,
     callC prog_env f prog_sbdf_obj_destroy [VCell ob 0] m k sx h = ONormal fin /\ inb fin = m /\ Imp.lookup cells_var (vars fin) = Some (VHeap (kill ob (kill db h))).
